@@ -43,6 +43,8 @@ pub enum Op {
     Insert { map: usize, region: usize },
     Remove { map: usize, slot: usize },
     CloneMap(usize),
+    /// overwrite the map `dst` with the contents of the map `src` through Clone::clone_from
+    CloneFrom { dst: usize, src: usize },
     MakeAtomic(usize),
     Snapshot(usize),
     CloneHandle(usize),
@@ -349,6 +351,16 @@ impl World {
                 }
                 _ => return Ok(false),
             },
+            Op::CloneFrom { dst, src } => {
+                let from = match self.handles.get(*src) {
+                    Some(Handle::Map(m)) => m.clone(),
+                    _ => return Ok(false),
+                };
+                match self.handles.get_mut(*dst) {
+                    Some(Handle::Map(d)) if dst != src => d.clone_from(&from),
+                    _ => return Ok(false),
+                }
+            }
             Op::MakeAtomic(i) => match self.handles.get(*i) {
                 Some(Handle::Map(m)) => {
                     if m.num_regions() == 0 {
@@ -880,7 +892,7 @@ fn replace_histories(ctx: &Ctx, kinds: &[Kind]) {
         if !k.owned() {
             continue;
         }
-        for family in 0..2usize {
+        for family in 0..4usize {
         // family 0 - handles: 0 R0, 1 R1, 2 map{R0,R1}, 3 map{R0} (after remove), 4 removed R1, 5 atomic(map 2), 6 snapshot;
         // every order of dropping the four other owners of R1 (indices shift as handles go).
         // family 1 - the replacement brings a region the snapshot never saw: 0 R0, 1 R1, 2 map{R0},
@@ -893,11 +905,30 @@ fn replace_histories(ctx: &Ctx, kinds: &[Kind]) {
                 vec![1usize, 2, 4, 6],
                 7,
             )
-        } else {
+        } else if family == 1 {
             (
                 vec![Op::Create(k), Op::Create(k), Op::Build(vec![0]), Op::Build(vec![0, 1]), Op::MakeAtomic(2), Op::Snapshot(4), Op::Replace { atomic: 4, map: 3 }],
                 vec![1usize, 3, 4],
                 6,
+            )
+        } else if family == 2 {
+            // family 2 - a cached copy of a map is brought up to date with clone_from after a
+            // region was removed: 0 R0, 1 R1, 2 map{R0,R1}, 3 copy of 2, 4 map{R0} (after remove),
+            // 5 removed R1; the copy takes over map 4 and stops owning R1; R1's other owners go
+            // in every order
+            (
+                vec![Op::Create(k), Op::Create(k), Op::Build(vec![0, 1]), Op::CloneMap(2), Op::Remove { map: 2, slot: 1 }, Op::CloneFrom { dst: 3, src: 4 }],
+                vec![1usize, 2, 5],
+                6,
+            )
+        } else {
+            // family 3 - clone_from the other way: a copy of the small map takes over the large one
+            // and becomes an owner of R1: 0 R0, 1 R1, 2 map{R0}, 3 copy of 2, 4 map{R0,R1};
+            // R1's owners (1, 3, 4) go in every order
+            (
+                vec![Op::Create(k), Op::Create(k), Op::Build(vec![0]), Op::CloneMap(2), Op::Build(vec![0, 1]), Op::CloneFrom { dst: 3, src: 4 }],
+                vec![1usize, 3, 4],
+                5,
             )
         };
         let mut orders: Vec<Vec<usize>> = Vec::new();
@@ -1193,7 +1224,7 @@ fn builder_sweep(ctx: &Ctx, thorough: bool) {
 
 pub fn run(tier: Tier, replay: Option<String>) -> i32 {
     let ctx = crate::new_ctx("C12", tier, "model_checking", &replay);
-    ctx.set_rule("E1: BFS over all histories up to the depth bound of {create region (owned anonymous / owned file-backed - through from_range, the builder with the hugetlbfs hint true or false, or with the hint set, cleared or toggled on the finished region, rotating with the slot; anonymous and external regions with the hint changed afterwards too - / external raw / external raw file-backed; Xen build: UNIX, grant in advance, foreign on the emulated devices), build a map from any subset of region handles, insert, remove (yields a removed-region handle), clone map, wrap in GuestMemoryAtomic, snapshot, replace the published map, clone handle, drop ANY live handle (every other drop happens while a caught panic unwinds; a region handle is first offered once more to every map that already holds that region - refused, and nobody's share changes)}; state = owner graph (which handle keeps which region alive), each frontier state is rebuilt by replaying its history on the real objects with mmap/munmap (and the grant ioctls) recorded through link-time interposition. After every step: no map resolves the guest range of a region it does not hold (asked first, before any other lookup through that map); a region with an owner has not been passed to munmap and is readable; a region whose last owner went away was munmap'ed exactly once with exactly its mapped length (grant: plus exactly one matching unmap ioctl); external mappings are never unmapped; at the end of every history all remaining handles are dropped and the same invariant is checked. Address-space accounting: the whole mapping log is replayed after every step; every page the library mapped while creating a region is attributed to it, all pages of a region with an owner must still be mapped, and none of the pages attributed to a region without owners may remain. Size sweep: the life cycle {create, build, clone, atomic, snapshot, optional remove} followed by the drop orders of the five owners for owned regions of 1 byte .. 1 GiB (thorough: .. 4 GiB; page multiples and not, around the 2 MiB huge-page size, exact multiples of 1 GiB), same invariants. Replace histories: create two regions, build, remove, wrap, snapshot, replace the published map by the one without the second region, then drop its four other owners in all 24 orders while the replaceable memory stays alive. And the mirror image: a snapshot of map{R0}, then map{R0,R1} is published, and R1's three owners (handle, map, replaceable memory) are dropped in all 6 orders while the old snapshot stays. Failed creations (std build): anonymous and file-backed regions and a two-region map created through four routes with exactly one mmap call failing, or one query of the file length failing or reporting an empty file: nothing the library mapped on the way may remain. Builder sweep (std build): MmapRegionBuilder::build for 5 protections x 16 (thorough 25) flag words (private/shared, anonymous or not, NORESERVE, LOCKED, POPULATE, FIXED, HUGETLB, STACK, GROWSDOWN, ...) x 4 (6) sizes x {no file, file at offset 0, file at a page offset}: while a built region is alive exactly its pages are mapped, after its drop or after a refused build nothing remains; every mlock/madvise/mprotect call the library makes on the way (interposed too) is failed once.");
+    ctx.set_rule("E1: BFS over all histories up to the depth bound of {create region (owned anonymous / owned file-backed - through from_range, the builder with the hugetlbfs hint true or false, or with the hint set, cleared or toggled on the finished region, rotating with the slot; anonymous and external regions with the hint changed afterwards too - / external raw / external raw file-backed; Xen build: UNIX, grant in advance, foreign on the emulated devices), build a map from any subset of region handles, insert, remove (yields a removed-region handle), clone map, wrap in GuestMemoryAtomic, snapshot, replace the published map, clone handle, drop ANY live handle (every other drop happens while a caught panic unwinds; a region handle is first offered once more to every map that already holds that region - refused, and nobody's share changes)}; state = owner graph (which handle keeps which region alive), each frontier state is rebuilt by replaying its history on the real objects with mmap/munmap (and the grant ioctls) recorded through link-time interposition. After every step: no map resolves the guest range of a region it does not hold (asked first, before any other lookup through that map); a region with an owner has not been passed to munmap and is readable; a region whose last owner went away was munmap'ed exactly once with exactly its mapped length (grant: plus exactly one matching unmap ioctl); external mappings are never unmapped; at the end of every history all remaining handles are dropped and the same invariant is checked. Address-space accounting: the whole mapping log is replayed after every step; every page the library mapped while creating a region is attributed to it, all pages of a region with an owner must still be mapped, and none of the pages attributed to a region without owners may remain. Size sweep: the life cycle {create, build, clone, atomic, snapshot, optional remove} followed by the drop orders of the five owners for owned regions of 1 byte .. 1 GiB (thorough: .. 4 GiB; page multiples and not, around the 2 MiB huge-page size, exact multiples of 1 GiB), same invariants. Replace histories: create two regions, build, remove, wrap, snapshot, replace the published map by the one without the second region, then drop its four other owners in all 24 orders while the replaceable memory stays alive. And the mirror image: a snapshot of map{R0}, then map{R0,R1} is published, and R1's three owners (handle, map, replaceable memory) are dropped in all 6 orders while the old snapshot stays. Two more families bring a copy of a map up to date with clone_from (towards a map with a region less, and with a region more) before the owners go. Failed creations (std build): anonymous and file-backed regions and a two-region map created through four routes with exactly one mmap call failing, or one query of the file length failing or reporting an empty file: nothing the library mapped on the way may remain. Builder sweep (std build): MmapRegionBuilder::build for 5 protections x 16 (thorough 25) flag words (private/shared, anonymous or not, NORESERVE, LOCKED, POPULATE, FIXED, HUGETLB, STACK, GROWSDOWN, ...) x 4 (6) sizes x {no file, file at offset 0, file at a page offset}: while a built region is alive exactly its pages are mapped, after its drop or after a refused build nothing remains; every mlock/madvise/mprotect call the library makes on the way (interposed too) is failed once.");
     ctx.assume("the 'programs' half of the property (accessors cannot outlive their parent) is decided by the compile-fail grid in tools/cfail.py and rests on Rust's borrow checker");
     if ctx.replay_of.is_some() {
         println!("replay: deterministic search; re-running it");
